@@ -34,7 +34,7 @@ var c06 = core.Register(&core.Prop{
 	Shards: func(tier string) int { return pickTier(tier, 4, 16) },
 	Floors: func(c map[string]int64, tier string) []string {
 		var out []string
-		for _, k := range []string{"op:not", "op:notnot", "op:cond", "op:and", "op:or", "op:nn", "branch_effect_cases", "identity_checked", "nested_cases", "dead_branch_cases", "same_runner_repeats", "flat_cases", "written_twice_cases"} {
+		for _, k := range []string{"op:not", "op:notnot", "op:cond", "op:and", "op:or", "op:nn", "branch_effect_cases", "identity_checked", "nested_cases", "dead_branch_cases", "same_runner_repeats", "flat_cases", "written_twice_cases", "branch_sequence_cases"} {
 			if c[k] == 0 {
 				out = append(out, "coverage floor: no "+k)
 			}
@@ -374,27 +374,36 @@ type EffectCase struct {
 	Conds  []int  `json:"conds"` // leaf indexes used as conditions, pre-order
 	Shape  string `json:"shape"` // "c(L,L)", "c(c(L,L),L)", "c(L,c(L,L))", "c(c(L,L),c(L,L))"
 	Effect string `json:"effect"`
+	// Pre: every conditional standing as a branch is the last element of a parenthesised sequence whose earlier elements
+	// leave traces of their own ("seq": `(rec('p'), $p = 3, c ? a : b)`, "seqp": the conditional parenthesised once more);
+	// those traces appear exactly for the conditionals on the selected path
+	Pre string `json:"pre,omitempty"`
 }
 
 func (c *EffectCase) build() (src string, selected string, all []string) {
+	src, sel, all := c.buildPath()
+	return src, sel[0], all
+}
+
+// buildPath: the source, the tags expected to leave a trace (the selected leaf first, then the prefixes on the selected
+// path) and all tags.
+func (c *EffectCase) buildPath() (src string, selected []string, all []string) {
 	ci := 0
 	tag := 0
-	var rec func(shape string) (string, string)
-	// parse the tiny shape grammar
-	var parse func(s string) (node string, rest string)
-	_ = parse
-	rec = func(shape string) (string, string) {
+	pre := 0
+	var rec func(shape string, branch bool) (string, []string)
+	rec = func(shape string, branch bool) (string, []string) {
 		if shape == "L" {
 			t := fmt.Sprintf("t%d", tag)
 			tag++
 			all = append(all, t)
 			switch c.Effect {
 			case "call":
-				return "rec('" + t + "')", t
+				return "rec('" + t + "')", []string{t}
 			case "assign":
-				return "($" + t + " = 1)", t
+				return "($" + t + " = 1)", []string{t}
 			default:
-				return "(rec('" + t + "'), $" + t + " = 2)", t
+				return "(rec('" + t + "'), $" + t + " = 2)", []string{t}
 			}
 		}
 		// shape = c(X,Y)
@@ -414,22 +423,40 @@ func (c *EffectCase) build() (src string, selected string, all []string) {
 		}
 		cond := tLeaves[c.Conds[ci%len(c.Conds)]]
 		ci++
-		a, ta := rec(inner[:split])
-		b, tb := rec(inner[split+1:])
+		var ptag string
+		if branch && c.Pre != "" {
+			ptag = fmt.Sprintf("p%d", pre)
+			pre++
+			all = append(all, ptag)
+		}
+		a, ta := rec(inner[:split], true)
+		b, tb := rec(inner[split+1:], true)
 		sel := tb
 		if cond.Truthy {
 			sel = ta
 		}
-		return "((" + cond.Src + ") ? " + a + " : " + b + ")", sel
+		s := "(" + cond.Src + ") ? " + a + " : " + b
+		if ptag != "" {
+			if c.Pre == "seqp" {
+				s = "(" + s + ")"
+			}
+			return "(rec('" + ptag + "'), $" + ptag + " = 3, " + s + ")", append(append([]string{}, sel...), ptag)
+		}
+		return "(" + s + ")", sel
 	}
-	src, selected = rec(c.Shape)
+	src, selected = rec(c.Shape, false)
 	return
 }
 
 var c06Effects = core.Mon(c06, "single-branch", func(w *core.W, c *EffectCase) {
 	initDerivedLeaves()
 	w.Eval(1)
-	src, sel, all := c.build()
+	src, selPath, all := c.buildPath()
+	sel := selPath[0]
+	if c.Pre != "" {
+		c06EffectsPath(w, c, src, selPath, all)
+		return
+	}
 	var log []string
 	data := c06Data(&log)
 	_, err, panicked, pv := resolveIn(data, src)
@@ -456,6 +483,51 @@ var c06Effects = core.Mon(c06, "single-branch", func(w *core.W, c *EffectCase) {
 		w.Violation("single-branch", "C06/selected-branch-not-evaluated", c, "branch "+sel+" evaluated", traces, src)
 	}
 })
+
+// c06EffectsPath: the traces left are exactly those of the selected leaf and of the sequences on the way to it.
+func c06EffectsPath(w *core.W, c *EffectCase, src string, selPath, all []string) {
+	var log []string
+	data := c06Data(&log)
+	_, err, panicked, pv := resolveInOnce(data, src)
+	if panicked || err != nil {
+		w.Violation("single-branch", "C06/effect-error", c, "a value", fmt.Sprint(pv, err), src)
+		return
+	}
+	w.Count("branch_effect_cases")
+	w.Count("branch_sequence_cases")
+	w.Nontrivial("effect:" + src)
+	want := map[string]bool{}
+	for _, t := range selPath {
+		want[t] = true
+	}
+	called, bound := map[string]int{}, map[string]bool{}
+	for _, t := range log {
+		called[t]++
+	}
+	for _, t := range all {
+		if _, ok := data["$"+t]; ok {
+			bound[t] = true
+		}
+	}
+	for _, t := range all {
+		isPre := strings.HasPrefix(t, "p")
+		wantCall := want[t] && (isPre || c.Effect != "assign")
+		wantBind := want[t] && (isPre || c.Effect != "call")
+		nc := 0
+		if wantCall {
+			nc = 1
+		}
+		if called[t] != nc || bound[t] != wantBind {
+			what := "C06/unselected-branch-evaluated"
+			if want[t] {
+				what = "C06/selected-branch-not-evaluated"
+			}
+			w.Violation("single-branch", what, c, fmt.Sprintf("traces of exactly %v (each once)", selPath), fmt.Sprintf("calls %v, locals bound %v", log, setOf(bound)),
+				src+": a selected branch that is a sequence is evaluated element by element, an unselected one not at all")
+			return
+		}
+	}
+}
 
 // TwiceCase: the condition and the selected branch are spelled alike but are two evaluations: an impure call standing in
 // both places runs twice, and the value of the conditional is what the SECOND run returned.
@@ -751,6 +823,9 @@ func runC06(w *core.W) {
 				for _, sh := range shapes {
 					for _, eff := range []string{"call", "assign", "both"} {
 						c06Effects(w, &EffectCase{Conds: []int{i, j, (i + j + k) % len(tLeaves)}, Shape: sh, Effect: eff})
+						if sh != "c(L,L)" && k == 0 {
+							c06Effects(w, &EffectCase{Conds: []int{i, j, (i + j + k) % len(tLeaves)}, Shape: sh, Effect: eff, Pre: []string{"seq", "seqp"}[(i+j)%2]})
+						}
 					}
 				}
 			}
